@@ -58,28 +58,28 @@ type TOp struct {
 }
 
 type SchedTrace struct {
-	Kind      string             `json:"kind"` // "sched"
-	Prop      string             `json:"property"`
-	Seed      uint64             `json:"seed"`
-	RunIdx    uint64             `json:"run_index"`
-	Scalars   []hist.Hex         `json:"shared_scalars"` // canonical encodings
-	Points    []hist.Hex         `json:"shared_points"`  // point encodings
-	Programs  [][]TOp            `json:"programs"`
-	First     int                `json:"first_task"`
-	Decisions []sched.Decision   `json:"decisions"`
-	Policy    string             `json:"policy,omitempty"`
-	Race      bool               `json:"race,omitempty"`
-	Violation *hist.Violation    `json:"violation,omitempty"`
-	Note      string             `json:"note,omitempty"`
+	Kind      string           `json:"kind"` // "sched"
+	Prop      string           `json:"property"`
+	Seed      uint64           `json:"seed"`
+	RunIdx    uint64           `json:"run_index"`
+	Scalars   []hist.Hex       `json:"shared_scalars"` // canonical encodings
+	Points    []hist.Hex       `json:"shared_points"`  // point encodings
+	Programs  [][]TOp          `json:"programs"`
+	First     int              `json:"first_task"`
+	Decisions []sched.Decision `json:"decisions"`
+	Policy    string           `json:"policy,omitempty"`
+	Race      bool             `json:"race,omitempty"`
+	Violation *hist.Violation  `json:"violation,omitempty"`
+	Note      string           `json:"note,omitempty"`
 }
 
 type SchedOut struct {
-	Idx        uint64          `json:"run_index"`
-	Seed       uint64          `json:"seed"`
-	Hash       string          `json:"hash"`
-	SwitchHash string          `json:"switch_hash"`
-	Violation  *hist.Violation `json:"violation,omitempty"`
-	Trace      *SchedTrace     `json:"trace,omitempty"`
+	Idx        uint64           `json:"run_index"`
+	Seed       uint64           `json:"seed"`
+	Hash       string           `json:"hash"`
+	SwitchHash string           `json:"switch_hash"`
+	Violation  *hist.Violation  `json:"violation,omitempty"`
+	Trace      *SchedTrace      `json:"trace,omitempty"`
 	Stats      map[string]int64 `json:"stats"`
 }
 
@@ -314,10 +314,10 @@ func rawShared(sh *shared) []byte {
 
 // RefOut is what the sequential cold reference process reports.
 type RefOut struct {
-	Results   [][]string `json:"results"`
-	Cold      []uint32   `json:"cold"` // per site, whole sequential cold execution
-	Warm      []uint32   `json:"warm"` // per site, second (warm) sequential execution
-	PkgHash   string     `json:"pkg_hash"`
+	Results [][]string `json:"results"`
+	Cold    []uint32   `json:"cold"` // per site, whole sequential cold execution
+	Warm    []uint32   `json:"warm"` // per site, second (warm) sequential execution
+	PkgHash string     `json:"pkg_hash"`
 }
 
 func cmdSchedRef() {
